@@ -16,6 +16,19 @@ CFG = {
         "Leptos.Keyed.C11_dom_order",
         "Leptos.Keyed.C11_history",
         "Leptos.Keyed.C11_history_dom_order",
+        "Leptos.Keyed.C11_build_detached",
+        "Leptos.Keyed.C11_rebuild_unmounted",
+        "Leptos.Keyed.C11_mount_before_sibling",
+        "Leptos.Keyed.C11_unmount",
+        "Leptos.Keyed.C11_life_cycle",
+        "Leptos.Keyed.C11_insert_before_this",
+        "Leptos.Keyed.C11_insert_before_this_unmounted",
+        "Leptos.Keyed.C11_nested_inner_update",
+        "Leptos.Keyed.C11_nested_outer_update",
+        "Leptos.Keyed.applyDiffDetached_sim",
+        "Leptos.Keyed.rebuildWith_detached",
+        "Leptos.Keyed.mount_mounted",
+        "Leptos.Keyed.unmount_detached",
         "Leptos.Keyed.C11_dom_order_old_witness",
         "Leptos.Keyed.C11_dom_order_old_iff",
         "Leptos.Keyed.rebuildWith_summary",
